@@ -4,15 +4,15 @@ from rules import payload as O
 
 
 def run(ctx):
-    L.lck3_snapshot_atomic(ctx)
-    L.lck4_batch_no_gap(ctx)
-    L.lck5_compact_swap(ctx)
-    L.lck6_declared_order(ctx)
-    L.lck7_freeze(ctx)
-    L.flw16_offsets_count_placed_rows(ctx)
-    L.lck1_flush_critical_section(ctx, with_reset=False)
-    O.opt1_shared_optional_payload(ctx)
-    O.flw7_catalogue_lookups_on_query_path(ctx)
+    ctx.run(L.lck3_snapshot_atomic)
+    ctx.run(L.lck4_batch_no_gap)
+    ctx.run(L.lck5_compact_swap)
+    ctx.run(L.lck6_declared_order)
+    ctx.run(L.lck7_freeze)
+    ctx.run(L.flw16_offsets_count_placed_rows)
+    ctx.run(L.lck1_flush_critical_section, with_reset=False)
+    ctx.run(O.opt1_shared_optional_payload)
+    ctx.run(O.flw7_catalogue_lookups_on_query_path)
     return ctx.finish(
         'Static lock analysis over compiler MIR (guard birth/transfer/death, must-hold sets per '
         'program point): the snapshot reads buffer, frozen buffer and partition map under all '
